@@ -42,7 +42,7 @@ def positions(payload):
                     yield kind, i, f, r
 
 
-def impl_outcomes(payload, d):
+def impl_outcomes(payload, d, with_cli=False):
     from in_toto.models.layout import Layout, Step, Inspection
     from in_toto.models.metadata import Metadata
     out = {}
@@ -60,6 +60,20 @@ def impl_outcomes(payload, d):
     env = {"payload": base64.b64encode(json.dumps(payload).encode()).decode(), "payloadType": W.PAYLOAD_TYPE, "signatures": []}
     json.dump(env, open(p, "w"))
     out["Envelope.get_payload"] = cls(lambda: Metadata.load(p).get_payload())
+    if with_cli:
+        # in-toto-sign (sign to another file; verify) and in-toto-verify on the file, in both containers: a layout that
+        # cannot be loaded cannot be signed, verified or used
+        from harness import cli, cliequiv
+        k = W.pool()[0]
+        for label, content in (("traditional", {"signatures": [], "signed": payload}), ("dsse", env)):
+            json.dump(content, open(p, "w"))
+            outp = os.path.join(d, "signed.layout")
+            if os.path.exists(outp):
+                os.remove(outp)
+            st = cli.run_main("in_toto_sign", ["-f", p, "-k", cliequiv.priv_path(k), "-o", outp])[0]
+            out["in-toto-sign -o (%s)" % label] = "ok" if st == 0 or os.path.exists(outp) else "status %s" % st
+            st = cli.run_main("in_toto_sign", ["-f", p, "-k", cliequiv.priv_path(k)])[0]
+            out["in-toto-sign in place (%s)" % label] = "ok" if st == 0 else "status %s" % st
     return out
 
 
@@ -80,7 +94,7 @@ def run_shard(seed, idx, n):
                 p[kind][i][f].insert(r, bad)
                 cases.append(({"where": [kind, i, f, r], "rule": bad}, p))
             for desc, p in cases:
-                i_out = impl_outcomes(p, d)
+                i_out = impl_outcomes(p, d, with_cli=rng.random() < 0.25)
                 m = drv.call({"op": "read_payload", "v": W.tagged(p)})
                 m_ok = "ok" in m
                 agreed = all((v == "ok") == m_ok for v in i_out.values())
